@@ -210,6 +210,11 @@ def run(chk, repo):
     chk.decide(ok, "C07.product", W("Poly.__pow__"), "p ** 0 = 1", why="zeroth power must be the constant one", node=pw)
     ok = "len(self._data) == 0" in arms and unparse(arms["len(self._data) == 0"].body[0]) == "return Poly(zero=self.zero)"
     chk.decide(ok, "C07.product", W("Poly.__pow__"), "empty ** n = empty", why="power of the zero polynomial", node=pw)
+    if "other == 0" in arms and "len(self._data) == 0" in arms:
+        chk.decide(arms["other == 0"].lineno < arms["len(self._data) == 0"].lineno, "C07.product", W("Poly.__pow__"),
+                   "the exponent-0 arm is tested before the empty-polynomial arm",
+                   why="(p - p) ** 0 must be 1 (the empty product), and p(q) with an empty q must keep p's constant "
+                       "term: testing emptiness first returns the empty polynomial", node=pw)
     ok = "len(self._data) == 1" in arms
     if ok:
         r = arms["len(self._data) == 1"].body[0]
